@@ -502,6 +502,88 @@ def rule_AI10(rep, prog):
                     "characters after a sequence split across regions are dropped or re-read" % {str(k_): v for k_, v in rest.items()}, sample={"store": s_.loc})
 
 
+def rule_TB11(rep, prog):
+    rid = rep.rule("C20-TB11", "signature comparisons cover the whole signature: a memcmp against a constant table (the UTF-8 byte-order mark) compares exactly the "
+                   "table's size, and the window mapped for it has that size", floor=1)
+    n = 0
+    for fn in prog.all_functions():
+        if not fn.name.startswith(("_dispatch_transform", "___dispatch_transform")):
+            continue
+        for c in fn.all_insts():
+            if c.op != "call" or c.callee not in ("memcmp", "bcmp"):
+                continue
+            g = [o for o in c.ops[:2] if o[0] == "g"]
+            if not g or c.ops[2][0] != "c":
+                continue
+            gl = prog.global_(g[0][1])
+            if gl is None or not gl.get("size"):
+                continue
+            n += 1
+            rep.saw(fn)
+            size = int(gl["size"])
+            maps = [m for m in calls_named(fn, "_dispatch_data_subrange_map") if fn.dominates(m, c) and m.ops[3][0] == "c"]
+            ok = c.ops[2][1] == size and all(m.ops[3][1] >= size for m in maps)
+            rep.require(rid, ok, c.loc, fn.name, "signature-compared-partially:%s" % g[0][1],
+                        "%s compares %d byte(s) of the %d-byte signature %s: text that merely begins like the signature (e.g. U+FEC0..U+FEFE, whose UTF-8 form "
+                        "starts EF BB) is taken for a byte-order mark and its first character is dropped" % (fn.name, c.ops[2][1], size, g[0][1]),
+                        sample={"fn": fn.name, "table": g[0][1], "size": size})
+    if n < 1:
+        rep.unknown(rid, "no memcmp against a constant signature table found in the transforms")
+
+
+def rule_BD12(rep, prog):
+    rid = rep.rule("C20-BD12", "per-region output buffers of the Base32 / Base64 decoders are sized for ceil(size / Q) quanta of B bytes (a quantum started in an "
+                   "earlier region can complete in this one, so floor(size / Q) is one quantum short)", floor=2)
+    n = 0
+    for name, Q, B in (("___dispatch_transform_from_base32_with_table_block_invoke", 8, 5), ("___dispatch_transform_from_base64_block_invoke", 4, 3)):
+        fn = prog.fn(name)
+        rep.saw(fn)
+        for m in calls_named(fn, "malloc"):
+            n += 1
+            v = fn.inst(m.ops[0])
+            ok = False
+            if v is not None and v.op == "mul" and v.ops[1][0] == "c" and v.ops[1][1] == B:
+                d = fn.inst(v.ops[0])
+                if d is not None and d.op == "udiv" and d.ops[1][0] == "c" and d.ops[1][1] == Q:
+                    a = fn.inst(d.ops[0])
+                    if a is not None and a.op == "add" and a.ops[1][0] == "c" and a.ops[1][1] == Q - 1 and tuple(a.ops[0][:2]) == ("a", 4):
+                        ok = True
+            rep.require(rid, ok, m.loc, name, "decoder-buffer-rounded-down:%s" % name,
+                        "%s allocates its output buffer for fewer than ceil(size/%d) quanta: when a region boundary falls inside a %d-character group the group "
+                        "completed in this region writes %d bytes past the malloc'ed buffer" % (name, Q, Q, B), sample={"fn": name, "malloc": m.loc})
+    if n < 2:
+        rep.unknown(rid, "fewer than 2 decoder output allocations found (%d)" % n)
+
+
+def rule_OD13(rep, prog):
+    rid = rep.rule("C20-OD13", "a pointer obtained from _dispatch_data_subrange_map is dereferenced only while the mapping object it came with is still held "
+                   "(the mapping may own a private copy of bytes that span regions; releasing it frees that copy)", floor=3)
+    n = 0
+    for fn in prog.all_functions():
+        maps = calls_named(fn, "_dispatch_data_subrange_map")
+        for m in maps:
+            slot = root_ptr(fn, m.ops[1])
+            if slot[0] != "i" or fn.insts[slot[1]].op != "alloca":
+                continue
+            ploads = [l for l in fn.all_insts() if l.op == "load" and root_ptr(fn, l.d["ptr"]["base"]) == slot and fn.inst_reaches(m, l)]
+            derefs = [d for d in fn.all_insts() if d.op in ("load", "call") and any(
+                (d.op == "load" and root_ptr(fn, d.d["ptr"]["base"]) == ("i", pl.id)) or
+                (d.op == "call" and any(o[0] == "i" and root_ptr(fn, o) == ("i", pl.id) for o in d.ops)) for pl in ploads)]
+            rels = [r for r in calls_named(fn, ("dispatch_release", "_dispatch_release")) if root_ptr(fn, r.ops[0]) == ("i", m.id)]
+            if not derefs:
+                continue
+            n += 1
+            rep.saw(fn)
+            others = [x for x in maps if x is not m]
+            bad = [(r, d) for r in rels for d in derefs if fn.inst_reaches(r, d, avoid_insts=others + [m])]
+            rep.require(rid, not bad and bool(rels), m.loc, fn.name, "mapped-pointer-used-after-release:%s" % fn.name,
+                        "%s reads through the pointer returned by _dispatch_data_subrange_map after releasing the mapping object (%s): when the mapped bytes span "
+                        "two regions they live in a copy owned by that object, so the read is from freed memory and the result depends on fragmentation"
+                        % (fn.name, bad[0][1].loc if bad else "no release found"), sample={"fn": fn.name, "map": m.loc, "derefs": len(derefs)})
+    if n < 3:
+        rep.unknown(rid, "fewer than 3 mapped windows with dereferences found (%d)" % n)
+
+
 def run(rep, tier="quick", srcdir=None, only=None):
     prog, units = load(UNITS, tier, srcdir)
     rep.units = units
@@ -532,6 +614,12 @@ def run(rep, tier="quick", srcdir=None, only=None):
         rule_TB9(rep, prog)
     if want("C20-AI10"):
         rule_AI10(rep, prog)
+    if want("C20-TB11"):
+        rule_TB11(rep, prog)
+    if want("C20-BD12"):
+        rule_BD12(rep, prog)
+    if want("C20-OD13"):
+        rule_OD13(rep, prog)
 
 
 MANIFEST = {
